@@ -3,7 +3,10 @@
 From V Require Export Model.DSim.
 
 Inductive case :=
-| FaultCase (c : cfg) (fs : list fault) (cok sok agree pong ping : bool) (tr : list (N * ev)).
+| FaultCase (c : cfg) (fs : list fault) (cok sok agree pong ping : bool) (tr : list (N * ev))
+| TraceCase (c : cfg) (fs : list fault) (cok sok agree pong ping : bool) (tr : list (N * ev)).
+    (* more faults than the property speaks about (the application's patience may be exhausted):
+       only the trace is compared with the model, and the clauses that hold for every script *)
 
 (* ---- decidable equality of traces *)
 Definition msg_eqb (a b : msg) : bool :=
@@ -45,11 +48,12 @@ Definition ev_eqb (a b : ev) : bool :=
 Definition tev_eqb (a b : N * ev) : bool := (fst a =? fst b) && ev_eqb (snd a) (snd b).
 
 Definition model_trace (c : case) : list (N * ev) :=
-  match c with FaultCase cf fs _ _ _ _ _ _ => sim_trace cf fs end.
+  match c with FaultCase cf fs _ _ _ _ _ _ | TraceCase cf fs _ _ _ _ _ _ => sim_trace cf fs end.
 
 Definition mismatch (c : case) : bool :=
   match c with
-  | FaultCase cf fs cok sok agree pong ping tr =>
+  | FaultCase cf fs cok sok agree pong ping tr
+  | TraceCase cf fs cok sok agree pong ping tr =>
       let '(n, finished) := simulate cf fs in
       negb (finished && list_eqb tev_eqb (rev (trace n)) tr &&
             Bool.eqb cok (complete (cl n)) && Bool.eqb sok (complete (sv n)))
@@ -77,6 +81,10 @@ Definition spec_code (c : case) : N :=
       else if negb (pong && ping) then 4
       else if match fs with [] => expiry_before_done false false tr | _ => false end then 1
       else if late Cl fs tr || late Sv fs tr then 5
+      else 0
+  | TraceCase cf fs cok sok agree pong ping tr =>
+      if got_before_done false false tr then 6
+      else if cok && sok && negb agree then 3
       else 0
   end.
 
